@@ -188,23 +188,39 @@ def ModuleIR.defines (m : ModuleIR) : List String :=
 
 /-! ### result-type modules (one per operation; fragments.py) -/
 
-def annUses : ResultTypes.Ann → List String
-  | .name n => [n]
-  | .cls _ => []
-  | .optional a => "Optional" :: annUses a
-  | .list a => "List" :: annUses a
-  | .union as => "Union" :: as.attach.flatMap fun ⟨a, _⟩ => annUses a
-  | .disc a => "Annotated" :: "Field" :: annUses a
-  | .literal _ => ["Literal"]
-  | .before t p => ["Annotated", "BeforeValidator", t, p]
+mutual
+  def annUses : ResultTypes.Ann → List String
+    | .name n => [n]
+    | .cls _ => []
+    | .optional a => "Optional" :: annUses a
+    | .list a => "List" :: annUses a
+    | .union as => "Union" :: annsUses as
+    | .disc a => "Annotated" :: "Field" :: annUses a
+    | .literal _ => ["Literal"]
+    | .before t p => ["Annotated", "BeforeValidator", t, p]
+  def annsUses : List ResultTypes.Ann → List String
+    | [] => []
+    | a :: as => annUses a ++ annsUses as
+end
 
-def annFwd : ResultTypes.Ann → List String
-  | .cls n => [n]
-  | .optional a => annFwd a
-  | .list a => annFwd a
-  | .union as => as.attach.flatMap fun ⟨a, _⟩ => annFwd a
-  | .disc a => annFwd a
-  | _ => []
+mutual
+  def annFwd : ResultTypes.Ann → List String
+    | .cls n => [n]
+    | .optional a => annFwd a
+    | .list a => annFwd a
+    | .union as => annsFwd as
+    | .disc a => annFwd a
+    | .name _ => []
+    | .literal _ => []
+    | .before _ _ => []
+  def annsFwd : List ResultTypes.Ann → List String
+    | [] => []
+    | a :: as => annFwd a ++ annsFwd as
+end
+
+/-- `model_has_forward_refs` (codegen.py): the class mentions a quoted name outside `Literal[...]`
+    (the same predicate as `ResultTypes.classHasForwardRefs`, by structural recursion so that the kernel evaluates it) -/
+def classHasFwd (c : ResultTypes.ClassDecl) : Bool := c.fields.any fun f => !(annFwd f.ann).isEmpty
 
 def fieldUses (f : ResultTypes.FieldDecl) : List String :=
   annUses f.ann ++ (if f.alias.isSome || f.discriminator then ["Field"] else [])
@@ -239,7 +255,9 @@ def generatorImports (cfg : Config) (isOp : Bool) (st : ResultTypes.St) : List I
 /-- the module `ResultTypesGenerator.generate()` returns for an operation -/
 def resultModule (cfg : Config) (file : String) (out : ModuleOut) : ModuleIR :=
   { file := file, kind := .result, imports := generatorImports cfg true out.st,
-    classes := out.classes.map resultClassIR, rebuilds := out.rebuild }
+    classes := out.classes.map resultClassIR,
+    -- `generate()`: `model_rebuild()` for every class with a forward reference, in class order
+    rebuilds := (out.classes.filter classHasFwd).map (·.name) }
 
 /-! ### enums.py -/
 
@@ -354,31 +372,31 @@ def _generate_input_types(self):
 A field whose type is not an input type (`ParsingError("Invalid input field type.")`, raised while the
 generator object is built) cannot occur for a schema graphql-core accepts.
 -/
+def inputsOut (cfg : Config) (tbl : List Prune.InputDef) (classes : List InputField.ClassDecl) (kept : List Prune.InputDef) : InputsOut :=
+  let names := kept.map (·.name)
+  let cs := classes.filter fun c => names.contains c.name
+  let irs := cs.map inputClassIR
+  let enums := Prune.inputsUsedEnums tbl names
+  -- `if self._used_enums:` tests the DICT of all input types; the import lists `get_used_enums()` of the
+  -- classes kept.  Some input type uses an enum but no kept class does: `from .enums import ` with no name
+  -- is emitted - not Python, autoflake gives up (NO import is pruned), isort drops the broken line.
+  let brokenEnumImport := enums.isEmpty && tbl.any fun d => !(Prune.enumRefs d).isEmpty
+  let imports : List Import :=
+    [⟨0, "typing", ["Optional", "Any", "Union", "List", "Annotated"]⟩, ⟨0, "pydantic", ["Field", "PlainSerializer"]⟩,
+     ⟨1, "base_model", ["BaseModel"]⟩, ⟨1, "base_model", [Tables.uploadClassName]⟩]
+    ++ (if enums.isEmpty then [] else [⟨1, cfg.enumsModule, enums⟩])
+    ++ scalarImportsOf cfg (inputUsedScalars tbl)
+  { module := { file := pyFile cfg.inputsModule, kind := .inputs, imports := imports, classes := irs,
+                prune := !brokenEnumImport,
+                rebuilds := (irs.filter fun c => !c.fwd.isEmpty).map (·.name) },
+    publicNames := cs.map (·.name), usedEnums := enums }
+
 def inputsModule (cfg : Config) (defs : List InputGen.TypeDef) (usedInputs : List String) : Except GenErr InputsOut :=
-  let classes := InputField.classes (inputCfg cfg) defs
-  if classes.any (fun c => c.fields.any Option.isNone) then .error (.parsing "Invalid input field type.")
+  if (InputField.classes (inputCfg cfg) defs).any (fun c => c.fields.any Option.isNone) then .error (.parsing "Invalid input field type.")
   else
-    let tbl := pruneTable cfg defs
-    match Prune.filterInputDefs tbl (if cfg.allInputs then none else some usedInputs) with
+    match Prune.filterInputDefs (pruneTable cfg defs) (if cfg.allInputs then none else some usedInputs) with
     | none => .error .fuel
-    | some kept =>
-      let names := kept.map (·.name)
-      let cs := classes.filter fun c => names.contains c.name
-      let irs := cs.map inputClassIR
-      let enums := Prune.inputsUsedEnums tbl names
-      -- `if self._used_enums:` tests the DICT of all input types; the import lists `get_used_enums()` of the
-      -- classes kept.  Some input type uses an enum but no kept class does: `from .enums import ` with no name
-      -- is emitted - not Python, autoflake gives up (NO import is pruned), isort drops the broken line.
-      let brokenEnumImport := enums.isEmpty && tbl.any fun d => !(Prune.enumRefs d).isEmpty
-      let imports : List Import :=
-        [⟨0, "typing", ["Optional", "Any", "Union", "List", "Annotated"]⟩, ⟨0, "pydantic", ["Field", "PlainSerializer"]⟩,
-         ⟨1, "base_model", ["BaseModel"]⟩, ⟨1, "base_model", [Tables.uploadClassName]⟩]
-        ++ (if enums.isEmpty then [] else [⟨1, cfg.enumsModule, enums⟩])
-        ++ scalarImportsOf cfg (inputUsedScalars tbl)
-      .ok { module := { file := pyFile cfg.inputsModule, kind := .inputs, imports := imports, classes := irs,
-                        prune := !brokenEnumImport,
-                        rebuilds := (irs.filter fun c => !c.fwd.isEmpty).map (·.name) },
-            publicNames := cs.map (·.name), usedEnums := enums }
+    | some kept => .ok (inputsOut cfg (pruneTable cfg defs) (InputField.classes (inputCfg cfg) defs) kept)
 
 /-! ### the client module -/
 
@@ -641,78 +659,104 @@ structure GenSt where
   init : List Import
   usedEnums : List String
 
+/-- one step of `generate()`: the new state, or the state at the failure together with the exception
+    (the write log survives a failure: that is what "refused before any write" is stated on) -/
+abbrev Step := GenSt → Except (GenSt × GenErr) GenSt
+
+def Step.andThen (a b : Step) : Step := fun g =>
+  match a g with
+  | .error x => .error x
+  | .ok g' => b g'
+
 /-- format (may be refused), write, append to `_generated_files` -/
-def emit (fmt : FmtOracle) (g : GenSt) (m : ModuleIR) : Except GenErr GenSt :=
+def emit (fmt : FmtOracle) (m : ModuleIR) : Step := fun g =>
   if fmt m then .ok { g with modules := putModule g.modules m, log := g.log ++ [m.file] }
-  else .error (.internal "InvalidInput")
+  else .error (g, .internal "InvalidInput")
 
-def emitAll (fmt : FmtOracle) : GenSt → List ModuleIR → GenSt × Option GenErr
-  | g, [] => (g, none)
-  | g, m :: rest =>
-    match emit fmt g m with
-    | .error e => (g, some e)
-    | .ok g' => emitAll fmt g' rest
+/-- write a generated module, then update the bookkeeping (`_used_enums`, the init imports) -/
+def emitThen (fmt : FmtOracle) (m : ModuleIR) (f : GenSt → GenSt) : Step := fun g =>
+  match emit fmt m g with
+  | .error x => .error x
+  | .ok g1 => .ok (f g1)
 
-/-- `write_text` without formatting (copied files) -/
+def emitAll (fmt : FmtOracle) : List ModuleIR → Step
+  | [] => fun g => .ok g
+  | m :: rest => (emit fmt m).andThen (emitAll fmt rest)
+
+/-- `write_text` without formatting (copied files, the custom-operation modules) -/
+def writeRaw (m : ModuleIR) (g : GenSt) : GenSt := { g with modules := putModule g.modules m, log := g.log ++ [m.file] }
+
 def copyAll (cfg : Config) (g : GenSt) (files : List String) : GenSt :=
-  files.foldl (fun g f => { g with modules := putModule g.modules (copiedModule cfg f), log := g.log ++ [f] }) g
+  files.foldl (fun g f => writeRaw (copiedModule cfg f) g) g
 
 def customModule (file : String) : ModuleIR := { file := file, kind := .custom, prune := false, provides := none }
 
-/-- the steps of `generate()` after the unique-name check; every step may abort, the write log survives -/
-def generateSteps (fmt : FmtOracle) (e : Order.EnumOracle) (cfg : Config) (inp : Input) (fl : Nat) (st : St) (init0 : List Import) :
-    GenSt × Option GenErr :=
-  let g0 : GenSt := { init := init0, usedEnums := st.usedEnums }
-  -- _generate_input_types
+/-- `_generate_input_types` -/
+def stepInputs (fmt : FmtOracle) (cfg : Config) (inp : Input) (st : St) : Step := fun g =>
   match inputsModule cfg inp.defs st.argSt.usedInputs with
-  | .error err => (g0, some err)
+  | .error err => .error (g, err)
   | .ok io =>
-    match emit fmt g0 io.module with
-    | .error err => (g0, some err)
-    | .ok g1 =>
-      let g1 := { g1 with usedEnums := g1.usedEnums ++ io.usedEnums, init := initAdd g1.init io.publicNames cfg.inputsModule }
-      -- _generate_result_types
-      match emitAll fmt g1 (st.files.map (·.2)) with
-      | (g2, some err) => (g2, some err)
-      | (g2, none) =>
-        -- _generate_fragments
-        let rem := Fragments.remaining (rtEnv cfg inp) st.unpacked
-        let fragStep : Except GenErr GenSt :=
-          if rem.isEmpty then .ok g2
-          else
-            match Fragments.genFragments (rtEnv cfg inp) fl (e rem) st.marks, Fragments.generateFragments e (rtEnv cfg inp) fl (e rem) st.marks with
-            | .ok gens, .ok fo =>
-              match emit fmt g2 (fragmentsModuleIR cfg fo gens) with
-              | .error err => .error err
-              | .ok g => .ok { g with usedEnums := g.usedEnums ++ fo.usedEnums, init := initAdd g.init fo.publicNames cfg.fragmentsModule }
-            | .error err, _ => .error (ofFragErr err)
-            | _, .error err => .error (ofFragErr err)
-        match fragStep with
-        | .error err => (g2, some err)
-        | .ok g3 =>
-          -- _copy_files
-          let g4 := copyAll cfg g3 (filesToCopy cfg ++ [cfg.baseClientFile, baseModelFile])
-          let g4 := { g4 with init := initAdd (initAdd g4.init [cfg.baseClientName] (stem cfg.baseClientFile))
-                                        ["BaseModel", Tables.uploadClassName] (stem baseModelFile) }
-          -- custom operations: four more files (their content is Model/CustomGen.lean's business)
-          let g5 := if cfg.customOps then
-              (customFiles inp.schema).foldl (fun g f => { g with modules := putModule g.modules (customModule f), log := g.log ++ [f] }) g4
-            else g4
-          -- _generate_client
-          match emit fmt g5 (clientModule cfg inp.schema st.entries st.argSt) with
-          | .error err => (g5, some err)
-          | .ok g6 =>
-            let g6 := { g6 with usedEnums := g6.usedEnums ++ st.argSt.usedEnums, init := initAdd g6.init [cfg.clientName] cfg.clientFile }
-            -- _generate_enums
-            let em := enumsModule cfg inp.schema g6.usedEnums
-            match emit fmt g6 em with
-            | .error err => (g6, some err)
-            | .ok g7 =>
-              let g7 := { g7 with init := initAdd g7.init (em.classes.map (·.name)) cfg.enumsModule }
-              -- _generate_init
-              match emit fmt g7 (initModule g7.init) with
-              | .error err => (g7, some err)
-              | .ok g8 => (g8, none)
+    emitThen fmt io.module (fun g1 => { g1 with usedEnums := g1.usedEnums ++ io.usedEnums, init := initAdd g1.init io.publicNames cfg.inputsModule }) g
+
+/-- `_generate_result_types` -/
+def stepResults (fmt : FmtOracle) (st : St) : Step := emitAll fmt (st.files.map (·.2))
+
+/-- `_generate_fragments` -/
+def stepFragments (fmt : FmtOracle) (e : Order.EnumOracle) (cfg : Config) (inp : Input) (fl : Nat) (st : St) : Step := fun g =>
+  let rem := Fragments.remaining (rtEnv cfg inp) st.unpacked
+  if rem.isEmpty then .ok g
+  else
+    match Fragments.genFragments (rtEnv cfg inp) fl (e rem) st.marks, Fragments.generateFragments e (rtEnv cfg inp) fl (e rem) st.marks with
+    | .ok gens, .ok fo =>
+      emitThen fmt (fragmentsModuleIR cfg fo gens)
+        (fun g' => { g' with usedEnums := g'.usedEnums ++ fo.usedEnums, init := initAdd g'.init fo.publicNames cfg.fragmentsModule }) g
+    | .error err, _ => .error (g, ofFragErr err)
+    | _, .error err => .error (g, ofFragErr err)
+
+/-- `_copy_files` (never fails in the model: the files exist, `Settings` checked that) -/
+def stepCopy (cfg : Config) : Step := fun g =>
+  let g4 := copyAll cfg g (filesToCopy cfg ++ [cfg.baseClientFile, baseModelFile])
+  .ok { g4 with init := initAdd (initAdd g4.init [cfg.baseClientName] (stem cfg.baseClientFile))
+                          ["BaseModel", Tables.uploadClassName] (stem baseModelFile) }
+
+/-- custom operations: four more files (their content is Model/CustomGen.lean's business) -/
+def stepCustom (cfg : Config) (inp : Input) : Step := fun g =>
+  .ok (if cfg.customOps then (customFiles inp.schema).foldl (fun g f => writeRaw (customModule f) g) g else g)
+
+/-- `_generate_client` -/
+def stepClient (fmt : FmtOracle) (cfg : Config) (inp : Input) (st : St) : Step :=
+  emitThen fmt (clientModule cfg inp.schema st.entries st.argSt)
+    (fun g6 => { g6 with usedEnums := g6.usedEnums ++ st.argSt.usedEnums, init := initAdd g6.init [cfg.clientName] cfg.clientFile })
+
+/-- `_generate_enums` -/
+def stepEnums (fmt : FmtOracle) (cfg : Config) (inp : Input) : Step := fun g =>
+  emitThen fmt (enumsModule cfg inp.schema g.usedEnums)
+    (fun g7 => { g7 with init := initAdd g7.init ((enumsModule cfg inp.schema g.usedEnums).classes.map (·.name)) cfg.enumsModule }) g
+
+/-- `_generate_init` -/
+def stepInit (fmt : FmtOracle) : Step := fun g => emit fmt (initModule g.init) g
+
+/-- the steps of `generate()` after the unique-name check, in the order of the Python; every step may abort,
+    the write log survives -/
+def generateSteps (fmt : FmtOracle) (e : Order.EnumOracle) (cfg : Config) (inp : Input) (fl : Nat) (st : St) : Step :=
+  (stepInputs fmt cfg inp st).andThen <| (stepResults fmt st).andThen <| (stepFragments fmt e cfg inp fl st).andThen <|
+    (stepCopy cfg).andThen <| (stepCustom cfg inp).andThen <| (stepClient fmt cfg inp st).andThen <|
+      (stepEnums fmt cfg inp).andThen (stepInit fmt)
+
+/-- `ExtractOperationsPlugin.generate_client_module` writes its operations module itself -/
+def extraWritesOf (cfg : Config) : List String :=
+  match cfg.extractOps with
+  | some m => [pyFile m]
+  | none => []
+
+/-- `_include_exceptions`: the init imports `generate()` starts from -/
+def init0 (cfg : Config) (st : St) : List Import :=
+  if cfg.defaultBaseClient then initAdd st.init Tables.exceptionsNames (stem exceptionsFile) else st.init
+
+def genSt0 (cfg : Config) (st : St) : GenSt := { init := init0 cfg st, usedEnums := st.usedEnums }
+
+def packageOf (cfg : Config) (g : GenSt) : PackageIR :=
+  { modules := g.modules, writeLog := g.log, reported := sortStr g.log, extraWrites := extraWritesOf cfg }
 
 /--
 ```python
@@ -730,19 +774,12 @@ def runPackage (fmt : FmtOracle) (e : Order.EnumOracle) (cfg : Config) (inp : In
   match addOperations cfg inp fl {} inp.ops with
   | .error err => { outcome := .error err }
   | .ok st =>
-    -- _include_exceptions
-    let init0 := if cfg.defaultBaseClient then initAdd st.init Tables.exceptionsNames (stem exceptionsFile) else st.init
-    -- _validate_unique_file_names
+    -- _validate_unique_file_names (after _include_exceptions)
     if hasDup (checkedFileNames cfg (st.files.map (·.1))) then { outcome := .error (.parsing "Duplicated file names") }
     else
-      match generateSteps fmt e cfg inp fl st init0 with
-      | (g, some err) => { mkdir := true, written := g.log, outcome := .error err }
-      | (g, none) =>
-        let extra := match cfg.extractOps with
-          | some m => [pyFile m]        -- ExtractOperationsPlugin.generate_client_module writes it itself
-          | none => []
-        { mkdir := true, written := g.log ++ extra,
-          outcome := .ok { modules := g.modules, writeLog := g.log, reported := sortStr g.log, extraWrites := extra } }
+      match generateSteps fmt e cfg inp fl st (genSt0 cfg st) with
+      | .error (g, err) => { mkdir := true, written := g.log, outcome := .error err }
+      | .ok g => { mkdir := true, written := g.log ++ extraWritesOf cfg, outcome := .ok (packageOf cfg g) }
 
 def generatePackage (fmt : FmtOracle) (e : Order.EnumOracle) (cfg : Config) (inp : Input) (fl : Nat := fuel) : Except GenErr PackageIR :=
   (runPackage fmt e cfg inp fl).outcome
